@@ -21,7 +21,13 @@ func init() {
 			"(4) an existing record returns the stored revocation before any write; " +
 			"(5) tidy deletes a revoked/ entry only across {entry nil, empty value, unparseable certificate and tidy_invalid_certs, NotAfter+buffer passed and tidy_revoked_certs}, judged on the certificate stored under the same serial; " +
 			"(6) the CRL builder turns every listed revocation record into a CRL entry (or fails), hands all of them to buildCRL (the list built for an issuer set is append-only: no member's entries replace what was collected before), skips a record as 'an issuer's own certificate' only on equality of the complete certificate encodings (Raw of the parsed record vs Raw of a candidate issuer), numbers each CRL with the counter it increments on the same path, never resets a counter, writes the CRL before reporting success and persists the counters after the CRLs were built.; " +
-			"(8) the CRL builder attributes a revocation record to an issuer by subject match plus signature verification only — no other test lets the loop pass over a candidate issuer — accepts a recorded issuer only if it is still an issuer, and places every parsed record on an issuer's list or on the unassigned list (the one reviewed skip: the record is one of the issuers' own certificates).",
+			"(8) the CRL builder attributes a revocation record to an issuer by subject match plus signature verification only — no other test lets the loop pass over a candidate issuer — accepts a recorded issuer only if it is still an issuer, and places every parsed record on an issuer's list or on the unassigned list (the one reviewed skip: the record is one of the issuers' own certificates); " +
+			"(gaps) buildAnyCRLs groups the issuers into (key, subject) sets by appending only (the per-key map is created only when absent, a set is only ever extended), leaves an issuer out of the sets only when it has no key, and reports success without building only for a disabled CRL or a delta request; " +
+			"augmentWithRevokedIssuers appends a revoked issuer, under its own serial, onto the list of exactly the issuer whose certificate verified its signature; " +
+			"every complete build stamps LastModified (the If-Modified-Since cache key) before buildCRL; " +
+			"config/crl answers success only after a forced crlBuilder.rebuild when auto_rebuild is switched off or the CRL is re-enabled; " +
+			"issuer/:ref/revoke writes the revocation state, time and record only for an issuer that is not yet revoked; " +
+			"in the member loop of buildAnyCRLsWithCerts the next member is reached only through the read of revokedCertsMap[member], so a member without crl-signing usage still contributes the revocations recorded against it.",
 		NotDecided: "CRL/OCSP signature validity; multi-issuer interleavings and other schedules; restart after a prefix of the storage writes (crash points); that normalizeSerial/serialFromBigInt compute matching strings (value level); expiry arithmetic.",
 		Run:        runC16,
 	})
@@ -43,6 +49,7 @@ func runC16(c *eng.Ctx, thorough bool) {
 	c16Ocsp(c, V)
 	c16Tidy(c, V)
 	c16Builder(c, V)
+	runC16Gaps2(c)
 }
 
 // ---------------------------------------------------------------------------
